@@ -56,7 +56,7 @@ func verifDir() string {
 }
 
 // genAll generates the VCs of every function under contract.
-func genAll(P *Program, only string) ([]*VC, []string) {
+func genAll(P *Program, only string, wanted map[string]bool) ([]*VC, []string) {
 	var vcs []*VC
 	var errs []string
 	var keys []string
@@ -85,6 +85,13 @@ func genAll(P *Program, only string) ([]*VC, []string) {
 			continue
 		}
 		if only != "" && !strings.Contains(k, only) {
+			continue
+		}
+		if wanted != nil && !wanted[k] {
+			// not in the obligation closure of the property being checked
+			if fc.Opts["assumed"] != "" {
+				P.assumed = append(P.assumed, k)
+			}
 			continue
 		}
 		if fc.Opts["assumed"] != "" {
@@ -266,10 +273,23 @@ func cmdCheck(args []string) int {
 		fmt.Println("ERROR: cannot load:", err)
 		return 2
 	}
-	vcs, errs := genAll(P, *only)
+	if os.Getenv("GOVC_TIMING") != "" {
+		fmt.Printf("TIMING load %.1fs\n", time.Since(t0).Seconds())
+	}
+	closure, roots := propClosure(P, *prop)
+	var wanted map[string]bool
+	if *prop != "" {
+		wanted = closure
+	}
+	vcs, errs := genAll(P, *only, wanted)
+	if os.Getenv("GOVC_TIMING") != "" {
+		fmt.Printf("TIMING gen %.1fs\n", time.Since(t0).Seconds())
+	}
 	lemObs, lerrs := genLemmas(P, *prop)
 	errs = append(errs, lerrs...)
-	closure, roots := propClosure(P, *prop)
+	if os.Getenv("GOVC_TIMING") != "" {
+		fmt.Printf("TIMING lemmas %.1fs\n", time.Since(t0).Seconds())
+	}
 	var obs []*Obligation
 	funcsUnder := map[string]int{}
 	for _, vc := range vcs {
@@ -340,7 +360,7 @@ func cmdCheck(args []string) int {
 			}
 		}
 	}
-	results := dischargeAll(obs, workdir, tlim, 6, *solver)
+	results := dischargeAll(obs, workdir, tlim, 8, *solver)
 	discharged := 0
 	bySolver := map[string]int{}
 	var failed []Result
@@ -487,7 +507,7 @@ func cmdDump(args []string) int {
 		fmt.Println("ERROR:", err)
 		return 2
 	}
-	vcs, errs := genAll(P, *only)
+	vcs, errs := genAll(P, *only, nil)
 	for _, e := range errs {
 		fmt.Println("ERROR:", e)
 	}
